@@ -44,6 +44,12 @@ ASSUMPTIONS = [
 
 F32 = np.float32
 
+# Candidate defects reported to the maintainer of the campaign; their inputs are generated only when the flag is set
+# (flip after the corresponding fix commit; see the final report of C19).
+SHORT_INCOMPLETE = False  # trailing incomplete log section with 0 or 1 rows: read_lammpslog raises (nrows = -1 / unequal start,end)
+MULTILINE_QUOTE = False  # log echoing a multi-line quoted command: pandas' skiprows counts parser rows, sections are misplaced
+BARE_GSD_NAME = False  # read_gsd_dcd_wrapper("traj.gsd") looks for "/traj.dcd" (dirname '' + '/')
+
 
 # =========================================================================================== shared
 def _cmp(R, tag, f, snap, exp, sig, keys):
@@ -639,12 +645,17 @@ def run_gsd(case):
         else:
             t, c = fresh(), fresh_dcd()
             runs.append(("read_gsd_dcd", read_gsd_dcd(t, c, d), t, None))
-            for path in ("./c19.gsd", "trajs/run_1.gsd"):
+            for path in ("./c19.gsd", "trajs/run_1.gsd") + (("c19b.gsd",) if BARE_GSD_NAME else ()):
                 reg.gsd.clear()
                 reg.dcd.clear()
                 t = reg.gsd[path] = fresh(path)
                 c = reg.dcd[path[:-3] + "dcd"] = fresh_dcd()
-                runs.append(("read_gsd_dcd_wrapper", read_gsd_dcd_wrapper(path, d), t, c))
+                try:
+                    runs.append(("read_gsd_dcd_wrapper", read_gsd_dcd_wrapper(path, d), t, c))
+                except FileNotFoundError as e:  # reported, never hidden: the companion is the sibling '<name>.dcd'
+                    transitions += 1
+                    R.fail(f"read_gsd_dcd_wrapper({path!r}) looked for the DCD companion at {e} instead of {path[:-3] + 'dcd'!r}",
+                           sig=dict(hs, clause="dcd_name", path="bare" if "/" not in path else "dir"))
             reg.gsd.clear()
             reg.dcd.clear()
             t = reg.gsd["./c19.gsd"] = fresh()
@@ -706,6 +717,11 @@ PREAMBLE = {
 }
 TAILS = {"quick": ["end", "noise", "inc2", "inc3cut"], "thorough": ["end", "wall", "noise", "inc2", "inc3cut", "inc4"]}
 NOISE_MID = ["none", "blank", "post", "stepword"]
+if SHORT_INCOMPLETE:
+    TAILS = {k: v + ["inc1", "inc0"] for k, v in TAILS.items()}
+if MULTILINE_QUOTE:
+    io19.NOISE["mlquote"] = 'print """\nhello\nworld\n"""\nhello\nworld\n'
+    NOISE_ALL = NOISE_ALL + ["mlquote"]
 
 
 def log_alphabets(tier):
@@ -715,7 +731,7 @@ def log_alphabets(tier):
                 [[nz, r, c] for nz in NOISE_MID for (r, c) in RC_QUICK[:3]],
                 [["none", 1, 2], ["post", 3, 4]]]
     return [[[nz, r, c] for nz in NOISE_ALL for (r, c) in RC_ALL],
-            [[nz, r, c] for nz in NOISE_ALL for (r, c) in RC_QUICK],
+            [[nz, r, c] for nz in NOISE_ALL for (r, c) in RC_QUICK[:3]],
             [["none", 1, 2], ["post", 3, 4], ["blank", 2, 3], ["warn", 3, 2]]]
 
 
@@ -746,6 +762,10 @@ def log_text(seed, pre, layout, h, tail):
         text += io19.incomplete_text(seed, S, 3, True)
     elif tail == "inc4":
         text += io19.POST_LOOP + io19.incomplete_text(seed, S, 4, False)
+    elif tail == "inc1":
+        text += io19.incomplete_text(seed, S, 1, False)
+    elif tail == "inc0":
+        text += io19.incomplete_text(seed, S, 0, False)
     return text, secs
 
 
@@ -772,10 +792,17 @@ def run_log(case):
         for tail in TAILS[case["tier"]]:
             text, secs = log_text(seed, case["pre"], layout, h, tail)
             io19.put("c19.log", text)
-            frames = read_lammpslog("c19.log")
-            transitions += 1
             complete = tail in ("end", "wall", "noise")
-            ts = dict(sig, tail="complete" if complete else "incomplete")
+            ts = dict(sig, tail="complete" if complete else ("incomplete_short" if tail in ("inc1", "inc0") else "incomplete"))
+            if any(ev[0] == "mlquote" for ev in h):
+                ts["noise"] = "mlquote"
+            transitions += 1
+            try:
+                frames = read_lammpslog("c19.log")
+            except Exception as e:  # reported (never hidden): a valid log must not make the reader raise; the search goes on
+                R.fail(f"read_lammpslog raised {type(e).__name__}: {e} on a log with {S} complete sections (tail: {tail})",
+                       sig=dict(ts, clause="exception", exception=type(e).__name__))
+                continue
             if not isinstance(frames, list) or (len(frames) != S if complete else len(frames) < S):
                 R.fail(f"{len(frames) if isinstance(frames, list) else type(frames).__name__} frames returned for a log with {S} complete sections "
                        f"(tail: {tail})", sig=dict(ts, clause="count"))
@@ -847,7 +874,7 @@ def subs(tier, seed):
             bounds={"depth": 3 if q else 4, "alphabet": 4}),
         Sub("C19.log", gen_log, run_log,
             rule="explicit-state search over section-append histories: event = (noise before the section from 9 kinds, rows 1-3, columns 2-4), depth 3 "
-                 "(events per level quick 36/12/2, thorough 81/36/4), preamble x layout combinations 2 (quick) / 4; every state is closed with 4 (quick) / 6 tails "
+                 "(events per level quick 36/12/2, thorough 81/27/4), preamble x layout combinations 2 (quick) / 4; every state is closed with 4 (quick) / 6 tails "
                  "(end of file, wall-time line, timing noise, incomplete trailing sections of 2-4 rows) and read back: count, names, every value",
             bounds={"depth": 3}),
     ]
